@@ -117,3 +117,42 @@ Example C04_premises_hold :
   /\ (match denote_xmi (tab_parse ex_ftab) ex_schema ex_doc, canon_xmi ex_schema ex_cas with
       | Ok x, Ok y => ccas_eqb x (norm_xmi ex_schema y) && ccas_eqb y ex_canon | _, _ => false end) = true.
 Proof. vm_compute. repeat split; reflexivity. Qed.
+
+(* ================================================================================================
+   JSON half of C04: the statements below are proved in JsonProofs.v / JsonProofs2.v / JsonLoadProofs.v / JsonLex.v and
+   collected in PropsJson.v (reading guide there); the sub-suite harness/props/C04json.py runs the JSON cases. *)
+From Cassis Require Import JsonDoc Json JsonProofs JsonProofs2 JsonLoadProofs JsonLex.
+From Cassis Require PropsJson.
+Open Scope list_scope.
+Open Scope Z_scope.
+
+Theorem C04_json_denote_save : forall L s mode c d c',
+  lex_ok L -> save_json L s mode c = Ok (d, c') -> wf_jsonb s c' = true -> 0 < c_next_id c ->
+  denote_json L s d = canon_json s c'.
+Proof. exact PropsJson.C04_json_denote_save. Qed.
+Print Assumptions C04_json_denote_save.
+
+Theorem C04_json_ids_distinct : forall L s mode c d c',
+  lex_ok L -> save_json L s mode c = Ok (d, c') -> wf_jsonb s c' = true -> 0 < c_next_id c ->
+  ids_distinctb s c' = true -> doc_ids_distinctb d = true.
+Proof. exact PropsJson.C04_json_ids_distinct. Qed.
+Print Assumptions C04_json_ids_distinct.
+
+Theorem C04_json_refs_resolve : forall L s mode c d c',
+  lex_ok L -> save_json L s mode c = Ok (d, c') -> wf_jsonb s c' = true -> 0 < c_next_id c ->
+  refs_wfb s c' = true -> doc_refs_resolveb d = true.
+Proof. exact PropsJson.C04_json_refs_resolve. Qed.
+Print Assumptions C04_json_refs_resolve.
+
+Theorem C04_json_entries : forall L s mode c d c',
+  lex_ok L -> save_json L s mode c = Ok (d, c') -> wf_jsonb s c' = true -> 0 < c_next_id c ->
+  exists w (Ev Ef : list entry),
+    find_all_fs true s c' = Ok w /\ fs_entries d = Ok (Ev ++ Ef) /\
+    map fst Ev = flat_map (fun v => arr_ids c' v ++ [s_xid (v_sofa v)]) (c_views c) /\
+    map fst Ef = map fst (sort_ids (w_all w)).
+Proof. exact PropsJson.C04_json_entries. Qed.
+Print Assumptions C04_json_entries.
+
+Theorem C04_json_std_lex_ok : lex_ok std_lex.
+Proof. exact PropsJson.C04_json_std_lex_ok. Qed.
+Print Assumptions C04_json_std_lex_ok.
